@@ -18,7 +18,7 @@ S=$(mktemp -d /tmp/verif-instr.XXXXXX)
 trap 'rm -rf "$S"' EXIT
 ( cd "$ROOT/tools/instrument" && go build -o "$ROOT/.build/instrument" . ) || { echo "cannot build the instrumenter" >&2; exit 2; }
 rsync -a --exclude .git --exclude OUT $REPO/ "$S/repo/" || exit 2
-mkdir -p "$S/repo/simrt" && cp "$ROOT/tools/simrt/simrt.go" "$S/repo/simrt/" || exit 2
+mkdir -p "$S/repo/simrt" && cp "$ROOT"/tools/simrt/*.go "$S/repo/simrt/" || exit 2
 sed -i 's/^go 1\.17$/go 1.21/' "$S/repo/go.mod"
 "$ROOT/.build/instrument" "$S/repo" > "$ROOT/.build/instrument.log" 2>&1 || { cat "$ROOT/.build/instrument.log" >&2; exit 2; }
 tail -1 "$ROOT/.build/instrument.log"
